@@ -701,62 +701,120 @@ func ruleK3(c *Ctx, id string) {
 		}
 	}
 	R.Check(lo == "<" && hi == ">=", id, "alloctxn.AssertValidBlock|range [DataStart, MaxBnum)", P.Pos(a.Pos()), "a non-null block number is rejected iff it is < DataStart() or >= MaxBnum()", "strictness matches the format range", fmt.Sprintf("found blkno %s DataStart, blkno %s MaxBnum: the assertion accepts a metadata block or rejects a data block", lo, hi))
-	// markAlloc refuses impossible configurations: panics on m < n and n >= NBITBLOCK
+	// markAlloc refuses impossible configurations: panics on m < n and n >= NBITBLOCK (the tests may sit in a
+	// predicate helper whose answer - a flag or an error value - markAlloc turns into the panic)
 	var conds []string
-	for _, br := range branches(mark) {
-		if br.Cond.X == nil || br.Cond.Y == nil {
-			continue
-		}
-		px, _ := stripConv(br.Cond.X).(*ssa.Parameter)
-		py, _ := stripConv(br.Cond.Y).(*ssa.Parameter)
-		// one side must lead to the panic: the true side of the refusing test, or the false side of the accepting
-		// one ("if !(n < K && ...) { panic }" branches on n < K)
-		toPanic := func(start *ssa.BasicBlock) bool {
-			leads := false
-			seen := map[*ssa.BasicBlock]bool{}
-			var walk func(b *ssa.BasicBlock, d int)
-			walk = func(b *ssa.BasicBlock, d int) {
-				if seen[b] || d > 4 {
-					return
-				}
-				seen[b] = true
-				if isPanicExit(b) {
-					leads = true
-				}
-				for _, s := range b.Succs {
-					if _, isIf := b.Instrs[len(b.Instrs)-1].(*ssa.If); isIf && b != br.Block {
-						continue // only straight to the panic, not through further tests
+	var collect func(fn *ssa.Function, refuses func(b *ssa.BasicBlock) bool, pname func(p *ssa.Parameter) string, depth int)
+	collect = func(fn *ssa.Function, refuses func(b *ssa.BasicBlock) bool, pname func(p *ssa.Parameter) string, depth int) {
+		for _, br := range branches(fn) {
+			br := br
+			// one side must lead to the refusal: the true side of the refusing test, or the false side of the accepting
+			// one ("if !(n < K && ...) { panic }" branches on n < K)
+			toRefusal := func(start *ssa.BasicBlock) bool {
+				leads := false
+				seen := map[*ssa.BasicBlock]bool{}
+				var walk func(b *ssa.BasicBlock, d int)
+				walk = func(b *ssa.BasicBlock, d int) {
+					if seen[b] || d > 4 {
+						return
 					}
-					walk(s, d+1)
+					seen[b] = true
+					if refuses(b) {
+						leads = true
+					}
+					for _, s := range b.Succs {
+						if _, isIf := b.Instrs[len(b.Instrs)-1].(*ssa.If); isIf && b != br.Block {
+							continue // only straight to the refusal, not through further tests
+						}
+						walk(s, d+1)
+					}
+				}
+				walk(start, 0)
+				return leads
+			}
+			tP, fP := toRefusal(br.True), toRefusal(br.False)
+			if tP == fP {
+				continue
+			}
+			// the answer of a predicate helper: "if bad(n, m) { panic }", "if check(n, m) != nil { panic }"
+			if depth < 2 {
+				var hc *ssa.Call
+				refuseOn := "" // which answer of the helper refuses: "true", "false", "nonnil", "nil"
+				if br.Cond.Op == token.ILLEGAL && br.Cond.X != nil {
+					if cl, ok := stripConv(br.Cond.X).(*ssa.Call); ok {
+						hc, refuseOn = cl, map[bool]string{true: "true", false: "false"}[tP]
+					}
+				} else if (br.Cond.Op == token.NEQ || br.Cond.Op == token.EQL) && br.Cond.X != nil && br.Cond.Y != nil {
+					x, y := br.Cond.X, br.Cond.Y
+					if isNilConst(x) {
+						x, y = y, x
+					}
+					if cl, ok := stripConv(x).(*ssa.Call); ok && isNilConst(y) {
+						nonnilSide := (br.Cond.Op == token.NEQ) == tP
+						hc, refuseOn = cl, map[bool]string{true: "nonnil", false: "nil"}[nonnilSide]
+					}
+				}
+				if hc != nil && hc.Call.StaticCallee() != nil && isPrivateHelper(hc.Call.StaticCallee()) && hc.Call.StaticCallee().Blocks != nil {
+					h := hc.Call.StaticCallee()
+					hname := func(p *ssa.Parameter) string {
+						for i, q := range h.Params {
+							if q == p && i < len(hc.Call.Args) {
+								if ap, ok := stripConv(hc.Call.Args[i]).(*ssa.Parameter); ok {
+									return pname(ap)
+								}
+							}
+						}
+						return "?"
+					}
+					hrefuses := func(b *ssa.BasicBlock) bool {
+						r, isR := b.Instrs[len(b.Instrs)-1].(*ssa.Return)
+						if !isR || len(r.Results) != 1 {
+							return false
+						}
+						v := r.Results[0]
+						switch refuseOn {
+						case "true", "false":
+							bv, isb := constBool(v)
+							return isb && bv == (refuseOn == "true")
+						case "nonnil":
+							if _, isPhi := v.(*ssa.Phi); isPhi {
+								return false
+							}
+							return !isNilConst(v)
+						case "nil":
+							return isNilConst(v)
+						}
+						return false
+					}
+					collect(h, hrefuses, hname, depth+1)
+					continue
 				}
 			}
-			walk(start, 0)
-			return leads
-		}
-		op := br.Cond.Op
-		tP, fP := toPanic(br.True), toPanic(br.False)
-		switch {
-		case tP && !fP:
-		case fP && !tP:
-			op = negOp(op)
-		default:
-			continue
-		}
-		pname := func(p *ssa.Parameter) string {
-			if len(mark.Params) > 2 && p == mark.Params[1] {
-				return "n"
+			if br.Cond.X == nil || br.Cond.Y == nil {
+				continue
 			}
-			if len(mark.Params) > 2 && p == mark.Params[2] {
-				return "m"
+			px, _ := stripConv(br.Cond.X).(*ssa.Parameter)
+			py, _ := stripConv(br.Cond.Y).(*ssa.Parameter)
+			op := br.Cond.Op
+			if fP {
+				op = negOp(op)
 			}
-			return "?"
-		}
-		if px != nil && py != nil {
-			conds = append(conds, pname(px)+op.String()+pname(py), pname(py)+flipOp(op).String()+pname(px))
-		} else if px != nil {
-			conds = append(conds, pname(px)+op.String()+"K")
+			if px != nil && py != nil {
+				conds = append(conds, pname(px)+op.String()+pname(py), pname(py)+flipOp(op).String()+pname(px))
+			} else if px != nil {
+				conds = append(conds, pname(px)+op.String()+"K")
+			}
 		}
 	}
+	collect(mark, isPanicExit, func(p *ssa.Parameter) string {
+		if len(mark.Params) > 2 && p == mark.Params[1] {
+			return "n"
+		}
+		if len(mark.Params) > 2 && p == mark.Params[2] {
+			return "m"
+		}
+		return "?"
+	}, 0)
 	has := func(s string) bool {
 		for _, x := range conds {
 			if x == s {
